@@ -31,5 +31,7 @@ NoLossNoDup ==
   /\ status = "eof" => NlPos = 0 /\ buf = SubSeq(stream, start, Len(stream)) /\ pos = Len(stream) + 1
   /\ status = "reading" => buf = SubSeq(stream, start, pos - 1) /\ Find(buf, <<10>>, 1) = 0
 (* the result does not depend on the block size: it is a function of (stream, start) *)
+(* liveness: under weak fairness of the only action every read-ahead ends (found or eof) *)
+FairSpec == Spec /\ WF_vars(ReadBlock)
 Terminates == <>(status # "reading")
 =======================================================================
